@@ -123,7 +123,7 @@ m_len_over(IMB_JOB *j, item_t *it, int v)
                 over = A->maxlen + A->gran * (v ? 3u : 1u) + (A->gran == 16 ? 0 : 0);
         if (A->family == F_CBCS)
                 return 0; /* CBCS is documented without the 16-bit limit */
-        if (A->family == F_AES && A->cm == IMB_CIPHER_CBC && g_dir == 0)
+        if (A->family == F_AES && (A->cm == IMB_CIPHER_CBC || A->cm == IMB_CIPHER_CFB) && g_dir == 0)
                 return 0; /* limit applies to the multi-buffer encrypt direction only */
         if (is_cipher())
                 j->msg_len_to_cipher_in_bytes = over;
